@@ -69,7 +69,8 @@ var catalog = []template{
 	{ClCall, "too_few", kCall, []string{`two(1)`, `Obj.Inc()`, `sink()`}},
 	{ClCall, "too_many", kCall, []string{`two(1, 2, 3)`, `Obj.Label(1)`}},
 	{ClCall, "ill_typed", kCall, []string{`two("a", "b")`, `Obj.Inc("a")`, `two(1, true)`}},
-	{ClCall, "three_unknown", kCall, []string{`Obj.Sub.NoSuch(1)`}},
+	{ClCall, "three_unknown", kCall, []string{`Obj.Sub.NoSuch(1)`, `Obj.Sub.NoSuch()`, `Obj.Sub.Nope()`}},
+	{ClCall, "three_unknown_path", kCall, []string{`Obj.NoSub.Get()`, `Nope.Sub.Get()`, `Obj.NoSub.Get(1)`}},
 	{ClCall, "three_panicking", kCall, []string{`Obj.Sub.Fail()`}},
 	{ClCall, "three_ill_typed", kCall, []string{`Obj.Sub.Get("a")`}},
 	// ---- failing assignments
